@@ -79,7 +79,7 @@ def convert(t, var_names, assms, to_real, ctx):
     def rec(t):
         if t.is_var():
             z3_t = convert_const(t.name, t.T, ctx)
-            if t.T == NatType and t.name not in assms:
+            if t.T == NatType and t.name not in assms and t.name not in bound_names:
                 assms[t.name] = z3_t >= 0
             return z3_t
         elif t.is_forall():
